@@ -518,6 +518,8 @@ class Hist:
             gone = set(op["genes"])
             removed = {rid for rid, x in ref.rxns.items()
                        if x["rule"] is not None and not gprtree.remove(x["rule"], gone)[1]}
+        if kind == "prune" and op.get("what") == "rxns":
+            removed = {rid for rid, x in ref.rxns.items() if not x["mets"]}
         if any(ref.rxn_in_user_cons(r) for r in removed):
             raise Skip("reaction referenced by a user constraint")
         if kind == "remove_cons_vars":
